@@ -1,0 +1,173 @@
+//! Verification hooks (cargo feature `verif`, off by default).
+//!
+//! Nothing in here changes what the samplers compute. The module offers
+//! - a thread-local, append-only event log that records the random draws a sampler step
+//!   consumed at the point where they are used, and
+//! - a process-global, sequence-numbered log of the progress-reporting protocol together with a
+//!   bounded-progress guard that decides "the reporter is stuck" on polling iterations instead of
+//!   wall-clock time.
+
+use std::cell::RefCell;
+use std::sync::atomic::{AtomicBool, AtomicU64, Ordering};
+use std::sync::Mutex;
+
+/// One recorded event of a sampler step.
+#[derive(Debug, Clone, PartialEq)]
+pub enum Event {
+    /// Draws and log-densities of one batched HMC step.
+    HmcStep {
+        n_chains: usize,
+        dim: usize,
+        momenta: Vec<f64>,
+        uniforms: Vec<f64>,
+        logp_before: Vec<f64>,
+        logp_after: Vec<f64>,
+    },
+    /// Start of a NUTS transition.
+    NutsBegin {
+        m: usize,
+        position: Vec<f64>,
+        momentum: Vec<f64>,
+        epsilon: f64,
+        joint: f64,
+        exp1: f64,
+        logu: f64,
+    },
+    /// Direction draw of one doubling.
+    NutsDir { u: f64, v: i8, depth: usize },
+    /// One leaf of the tree (a single leapfrog step).
+    NutsLeaf {
+        position: Vec<f64>,
+        joint: f64,
+        n: usize,
+        s: bool,
+    },
+    /// Uniform used to choose between the proposals of two merged subtrees.
+    NutsMergeU { u: f64, n_first: usize, n_second: usize },
+    /// Result of one doubling and the uniform used to accept its proposal.
+    NutsAcceptU {
+        u: f64,
+        n_prime: usize,
+        n: usize,
+        s_prime: bool,
+        proposal: Vec<f64>,
+    },
+    /// End of a NUTS transition.
+    NutsEnd {
+        depth: usize,
+        n: usize,
+        alpha: f64,
+        n_alpha: usize,
+        position: Vec<f64>,
+    },
+}
+
+thread_local! {
+    static LOG: RefCell<Option<Vec<Event>>> = const { RefCell::new(None) };
+}
+
+/// Starts recording on the calling thread (clears earlier events).
+pub fn enable() {
+    LOG.with(|l| *l.borrow_mut() = Some(Vec::new()));
+}
+
+/// Stops recording on the calling thread.
+pub fn disable() {
+    LOG.with(|l| *l.borrow_mut() = None);
+}
+
+/// True if the calling thread records events.
+pub fn enabled() -> bool {
+    LOG.with(|l| l.borrow().is_some())
+}
+
+/// Returns and clears the events recorded on the calling thread.
+pub fn take() -> Vec<Event> {
+    LOG.with(|l| match l.borrow_mut().as_mut() {
+        Some(v) => std::mem::take(v),
+        None => Vec::new(),
+    })
+}
+
+/// Appends an event if recording is enabled; the closure is not evaluated otherwise.
+pub fn emit<F: FnOnce() -> Event>(f: F) {
+    LOG.with(|l| {
+        if let Some(v) = l.borrow_mut().as_mut() {
+            v.push(f());
+        }
+    });
+}
+
+/// Events of the progress-reporting protocol (cross-thread).
+#[derive(Debug, Clone, Copy, PartialEq, Eq)]
+pub enum Proto {
+    /// A chain worker sent a statistics message; `last` marks the final one.
+    Sent { n: u64, last: bool, delivered: bool },
+    /// A chain worker finished its loop.
+    WorkerDone,
+    /// The reporter thread finished one polling iteration.
+    ReporterIter { n_chains: usize, n_finished: usize },
+    /// The reporter thread left its loop.
+    ReporterExit,
+}
+
+static PROTO_ON: AtomicBool = AtomicBool::new(false);
+static PROTO_SEQ: AtomicU64 = AtomicU64::new(0);
+static PROTO_LOG: Mutex<Vec<(u64, Proto)>> = Mutex::new(Vec::new());
+static WORKERS_DONE: AtomicU64 = AtomicU64::new(0);
+static ITERS_AFTER_DONE: AtomicU64 = AtomicU64::new(0);
+static GUARD_SLACK: AtomicU64 = AtomicU64::new(0);
+
+/// Exit status used by the bounded-progress guard.
+pub const GUARD_EXIT_CODE: i32 = 97;
+
+/// Starts recording protocol events (process-wide) and resets all counters.
+/// `guard_slack > 0` arms the bounded-progress guard: if the reporter completes more than
+/// `2 * n_chains + guard_slack` polling iterations after all `n_chains` workers finished, the
+/// process prints a marker line and exits with [`GUARD_EXIT_CODE`].
+pub fn proto_enable(guard_slack: u64) {
+    let mut log = PROTO_LOG.lock().unwrap_or_else(|e| e.into_inner());
+    log.clear();
+    PROTO_SEQ.store(0, Ordering::SeqCst);
+    WORKERS_DONE.store(0, Ordering::SeqCst);
+    ITERS_AFTER_DONE.store(0, Ordering::SeqCst);
+    GUARD_SLACK.store(guard_slack, Ordering::SeqCst);
+    PROTO_ON.store(true, Ordering::SeqCst);
+}
+
+/// Stops recording protocol events and returns what was recorded, in sequence order.
+pub fn proto_take() -> Vec<(u64, Proto)> {
+    PROTO_ON.store(false, Ordering::SeqCst);
+    let mut log = PROTO_LOG.lock().unwrap_or_else(|e| e.into_inner());
+    std::mem::take(&mut *log)
+}
+
+/// Records one protocol event.
+pub fn proto_emit(e: Proto) {
+    if !PROTO_ON.load(Ordering::SeqCst) {
+        return;
+    }
+    {
+        let mut log = PROTO_LOG.lock().unwrap_or_else(|e| e.into_inner());
+        let seq = PROTO_SEQ.fetch_add(1, Ordering::SeqCst);
+        log.push((seq, e));
+    }
+    match e {
+        Proto::WorkerDone => {
+            WORKERS_DONE.fetch_add(1, Ordering::SeqCst);
+        }
+        Proto::ReporterIter { n_chains, .. } => {
+            let slack = GUARD_SLACK.load(Ordering::SeqCst);
+            if slack > 0 && WORKERS_DONE.load(Ordering::SeqCst) >= n_chains as u64 {
+                let k = ITERS_AFTER_DONE.fetch_add(1, Ordering::SeqCst) + 1;
+                if k > 2 * n_chains as u64 + slack {
+                    println!(
+                        "VERIF-GUARD reporter still polling {k} iterations after all {n_chains} workers finished"
+                    );
+                    std::process::exit(GUARD_EXIT_CODE);
+                }
+            }
+        }
+        _ => {}
+    }
+}
